@@ -133,6 +133,12 @@ class RingSystem:
                 for fwd in (False, True):
                     for kind in kinds:
                         yield ("readrange", L, o, fwd, kind)
+        # reads are pure: the same object answers a second pass in the opposite order (longest range first, then shorter ones)
+        # exactly as it answered the first - nothing a read leaves behind may leak into a later read
+        for L in range(N, 0, -1):
+            for kind in kinds:
+                yield ("readrange", L, (L + 1) % (2 * N + 1), L % 2 == 0, kind)
+            yield ("read", L)
 
     def mutations(self, st):
         N = self.N
